@@ -110,6 +110,12 @@ import (
 //@   ensures[C04@conc] err == nil ==> e.seqID == q.gseq[old(*q.head)] && e.offsetInShmBuf == q.goff[old(*q.head)] && e.status == q.gst[old(*q.head)] && *q.head == old(*q.head) + 1
 //@   ensures[C04@conc] err != nil ==> err == errQueueEmpty && old(*q.head) >= tseen && *q.head == old(*q.head)   // empty only when it really was: at the instant tail was read
 //@   ensures[C04@conc] headOK(q)
+// C05@conc: a pop by the working consumer (outside the markNotWorking window) keeps the protocol invariant
+//@   requires[C05@conc] inv5(q) && q.working && !q.window
+//@   interference[C05@conc] region(q.queueBytesOnMemory), q.pp, q.inflight
+//@   rely[C05@conc] prodSteps5(q)
+//@   guarantee[C05@conc] consSteps5(q)
+//@   ensures[C05@conc] inv5(q) && q.working && !q.window
 
 //@ func (*queue).size
 //@   requires wfQueue(q)
